@@ -1415,11 +1415,12 @@ class Process(StateMachine, persistence.Savable, metaclass=ProcessStateMachineMe
                 # The process was terminated underneath the step (e.g. a scheduled callback failed it): nothing to do
                 return
 
-            if next_state is not None and next_state.LABEL == process_states.ProcessState.EXCEPTED:
+            failed = next_state is not None and next_state.LABEL == process_states.ProcessState.EXCEPTED
+            if failed:
                 # The step failed (``Running.execute`` hands back the excepted state): this overrides a pending pause or kill
                 self._set_interrupt_action(None)
 
-            if self._future.cancelled() and not self._killing:
+            if self._future.cancelled() and not self._killing and not failed:
                 # The future was cancelled while the step was in flight and the kill it triggers has not been
                 # scheduled yet: honour it now rather than transitioning with a cancelled future
                 self.kill('Killed by future being cancelled')
